@@ -200,6 +200,48 @@ fn apx_framework() {
     std::mem::forget(af);
 }
 
+/// usize labels 1, 2 with 1->2, 2->2, 2->1; one argument removed (symbolic when `which` is None); the written file
+/// must list exactly the live arguments in creation order and the live attacks in insertion order
+fn apx_framework_usize(which: Option<usize>) {
+    let labels = [1usize, 2usize];
+    let mut af: AAFramework<usize> = AAFramework::default();
+    for n in labels.iter() {
+        af.new_argument(*n);
+    }
+    let atts = [(0usize, 1usize), (1, 1), (1, 0)];
+    for (i, j) in atts.iter() {
+        af.new_attack(&labels[*i], &labels[*j]).unwrap();
+    }
+    let removed = match which {
+        Some(k) => k,
+        None => nd::below(2) as usize,
+    };
+    af.remove_argument(&labels[removed]).unwrap();
+    let mut buf: Vec<u8> = Vec::new();
+    let r = AspartixWriter::default().write_framework(&af, &mut buf);
+    require!(r.is_ok(), "C14: writing into memory succeeds");
+    let mut want: Vec<u8> = Vec::new();
+    for (k, n) in labels.iter().enumerate() {
+        if k != removed {
+            want.extend_from_slice(b"arg(");
+            ref_usize(*n, &mut want);
+            want.extend_from_slice(b").\n");
+        }
+    }
+    for (i, j) in atts.iter() {
+        if *i != removed && *j != removed {
+            want.extend_from_slice(b"att(");
+            ref_usize(labels[*i], &mut want);
+            want.push(b',');
+            ref_usize(labels[*j], &mut want);
+            want.extend_from_slice(b").\n");
+        }
+    }
+    require!(same_bytes(&buf, &want), "C14: the written framework lists exactly the live arguments (in order) and the live attacks");
+    std::mem::forget(r);
+    std::mem::forget(af);
+}
+
 macro_rules! writer_harness {
     ($name:ident, $unwind:literal, $body:expr) => {
         #[cfg_attr(kani, kani::proof)]
@@ -219,3 +261,6 @@ writer_harness!(c14_q_iccma_ext_one, 8, iccma_extension(1, 1000));
 writer_harness!(c14_t_iccma_ext_two, 11, iccma_extension(2, 100)); // "w 99 99\n": 8 bytes compared + slack
 writer_harness!(c14_z_apx_ext_a_b1, 8, apx_extension("a", "b1"));
 writer_harness!(c14_z_apx_framework, 12, apx_framework());
+writer_harness!(c14_z_apx_framework_usize_sym, 20, apx_framework_usize(None));
+writer_harness!(c14_z_apx_framework_usize_rm0, 20, apx_framework_usize(Some(0)));
+writer_harness!(c14_z_apx_framework_usize_rm1, 20, apx_framework_usize(Some(1)));
